@@ -263,12 +263,20 @@ func monC09(w *World) {
 			}
 			b, ok := nd.bc.LocalGet(e.PartialCert.BlockHash())
 			if !ok {
-				if e.Deferred {
-					w.probe("c09-deferred-vote-needs-fetch")
-				} else {
+				if !e.Deferred {
 					w.probe("c09-vote-before-block")
+					return // counted when it comes back as a deferred vote
 				}
-				return // not counted: the collector may or may not obtain the block
+				w.probe("c09-deferred-vote-needs-fetch")
+				// "before or after the block itself": a vote that waited for its block counts as soon as the
+				// block can be had. If a fetch issued now is certain to succeed the vote must count; otherwise
+				// the collector may or may not obtain the block and the vote is left out of the obligation.
+				rb := w.reg.get(e.PartialCert.BlockHash())
+				if rb == nil || w.kauri() || !w.fetchable(nd, rb.Hash()) {
+					return
+				}
+				w.probe("c09-deferred-vote-fetchable")
+				b = rb
 			}
 			if e.Deferred {
 				w.probe("c09-deferred-vote-counted")
